@@ -382,10 +382,10 @@ impl FootprintGuard {
                 !footprint.e_write.iter().any(|k| k.warp_id != warp_id),
                 "FootprintGuard::new: rule '{rule_name}' has cross-warp entries in e_write (expected warp {warp_id:?})"
             );
-            assert!(
-                !footprint.a_read.iter().any(|k| k.owner.warp_id() != warp_id),
-                "FootprintGuard::new: rule '{rule_name}' has cross-warp entries in a_read (expected warp {warp_id:?})"
-            );
+            // `a_read` is exempt: `Engine::apply_in_warp` adds the descent chain (portal slots
+            // of ancestor instances) to every footprint matched inside a descended instance,
+            // so cross-warp attachment READS are legitimate; they are filtered out below
+            // because the guarded view can only read the unit's own instance.
             assert!(
                 !footprint.a_write.iter().any(|k| k.owner.warp_id() != warp_id),
                 "FootprintGuard::new: rule '{rule_name}' has cross-warp entries in a_write (expected warp {warp_id:?})"
